@@ -27,7 +27,7 @@ ASSUMPTIONS = [
     "a property is compared with its definition only while every field it depends on is present",
     "multi-key update()/|= may stop half-way: every applied key must still satisfy the invariants; the unchanged-after-failure clause is applied to single-key operations only",
     "plain Python attribute assignment of a name that is not a field is ordinary object behaviour and is not generated",
-    "on_error/preserve policies and defer_default are not part of the world (documented as unsafe / intentionally two-view)",
+    "'preserve' policies and defer_default are not part of the world (documented as unsafe / intentionally two-view); one optional field carries on_error='exclude'",
 ]
 COMPONENTS = {
     "real": ["Schema.__setitem__/__delitem__/__field_setter__/__field_deleter__/__field_getter__/pop/popitem/update/clear/copy/__coerce_property__",
@@ -53,11 +53,12 @@ FIELD_INFO = {
     "hid":   {"att": "hid", "name": "hid", "keys": ["hid"], "type": "int"},
     "lf":    {"att": "lf", "name": "lf", "keys": ["lf"], "type": "leaf"},
     "mreq":  {"att": "mreq", "name": "mreq", "keys": ["mreq"], "type": "int"},
+    "exo":   {"att": "exo", "name": "exo", "keys": ["exo"], "type": "int"},
     "total": {"att": "total", "name": "total", "keys": ["total"], "type": "int"},
     "w":     {"att": "w", "name": "w", "keys": ["w"], "type": "posint"},
     "w2":    {"att": "w2", "name": "w2", "keys": ["w2"], "type": "int"},
 }
-ORDER = ["req", "opt", "its", "pos", "fin", "ali", "hid", "lf", "mreq", "total", "w"]
+ORDER = ["req", "opt", "its", "pos", "fin", "ali", "hid", "lf", "mreq", "exo", "total", "w"]
 
 
 def source(plan):
@@ -99,6 +100,8 @@ def source(plan):
         L.append("    lf: Leaf = Field(required=False)")
     if "mreq" in fs:
         L.append("    mreq: int = Field(required='w', default=5)")
+    if "exo" in fs:
+        L.append("    exo: int = Field(required=False, on_error='exclude')")
     if "total" in fs:
         L += ["    @property", "    @Field(dependencies=['req', 'pos'])", "    def total(self) -> int:",
               "        return self.req * 10 + self.pos"]
